@@ -113,7 +113,13 @@ RULE = (
     "pristine copies, guard cells unchanged); complex / longdouble / float32 / integer / bool / 0-d derivative data (linearity); "
     "25 calls that end in an exception before the accepted ones, in this process and first in a fresh process; radii 1e-150..1e150 "
     "about centres of the same magnitude with r^l in [1e-300, 1e300]; the derivative routine at l_max > 150 next to the poles and "
-    "across sin(phi) = 0; every pairing of (rows, points) with sizes 1 and 2 and rows = points"
+    "across sin(phi) = 0; every pairing of (rows, points) with sizes 1 and 2 and rows = points. Round 5: np.longdouble / float32 / "
+    "float16 / int64 / int16 arrays given directly to every routine (angles, (r, theta, phi) in C and Fortran order, points x "
+    "centre in every pairing, the six scalars of the derivative conversion as NumPy scalars and 0-d arrays): answer to the precision "
+    "of the type the computation is carried out in, argument objects unchanged, the call repeated on the same objects bit-identical, "
+    "with another degree in between, after `t *= 2; p += 1` (answer for the new contents) and back; 1025 and 4097 different points "
+    "(thorough: 65537, 2^19 + 1) through every routine: the whole against a two- and three-way split, reversed, sorted by descending "
+    "polar angle, shuffled, and the first / last / block-boundary points against the per-point model / definition"
 )
 TRUSTED_BASE = [
     "Lean 4.33 kernel; axioms propext, Classical.choice, Quot.sound only (audited per theorem)",
@@ -235,6 +241,12 @@ def _maxdiff(a, b):
 _FN = {"recursion": "generate_real_spherical_harmonics", "scipy": "generate_real_spherical_harmonics_scipy",
        "deriv": "generate_derivative_real_spherical_harmonics", "solid": "solid_harmonics", "c2s": "convert_cart_to_sph"}
 EPS32 = 2.0 ** -23
+EPS16 = 2.0 ** -10
+
+
+def _loose(v, default):
+    """Comparison precision of a variant: the precision of the narrowest floating type the computation is carried out in."""
+    return 8 * EPS16 if v.get("half") else 64 * EPS32 if v.get("single") else default
 _ARR = {  # kind -> statement(s) building the object `{n}` that holds the values {v}
     "float64": "{n} = np.array({v})",
     "list": "{n} = list({v})",
@@ -375,6 +387,33 @@ def _variants(ctx: Ctx):
         one(fn, "dtype:zero-stride-both", f"t = np.broadcast_to(np.float64({tf[1]!r}), (3,)); p = np.broadcast_to(np.float64({pf[2]!r}), (3,))", f"fn({L}, t, p)", L,
             [tf[1]] * 3, [pf[2]] * 3)
         one(fn, "dtype:float32-columns-of-2d", f"M = np.array({M!r}, dtype=np.float32); t = M[:, 1]; p = M[:, 2]", f"fn({L}, t, p)", L, tcol, pcol, single=True)
+    # round 5, class 23 (+ 25): extended / reduced precision and integer arrays given *directly*: np.longdouble, float32, float16,
+    # int64 / int16.  Every value is representable in the narrowest type, so each answer is compared with the float64 reference to
+    # the precision of the type the computation is carried out in; the argument objects are compared before / after every call;
+    # the call is repeated on the same objects (bit-identical), made with another degree in between, repeated after the objects
+    # were changed in place (`t *= 2`, `p += 1`: the answer for the new contents) and after they were changed back.
+    h16 = lambda x: round(x * 256) / 256.0   # multiples of 2^-8 below 4: exact in float16, and so are 2 x and x + 1
+    t16, p16 = [h16(rg.uniform(0.2, 1.4)), -h16(rg.uniform(0.3, 1.4)), h16(rg.uniform(1.6, 1.9))], [h16(rg.uniform(0.3, 1.2)), -h16(rg.uniform(0.3, 1.2)), h16(rg.uniform(2.2, 2.9))]
+    DIRECT = (("longdouble", "np.longdouble", {}), ("float32", "np.float32", {"single": True}), ("float16", "np.float16", {"half": True}),
+              ("int64", "np.int64", {}), ("int16", "np.int16", {}))
+    for fn in ("recursion", "scipy", "deriv"):
+        L = 3
+        for kind, dt, flags in DIRECT:
+            t0, p0 = ([1.0, -2.0, 3.0], [1.0, 2.0, -2.0]) if kind.startswith("int") else (t16, p16)
+            t1, p1 = [2 * x for x in t0], [x + 1 for x in p0]
+            if kind == "int16" and fn in ("scipy", "deriv"):
+                flags = {"single": True}   # SciPy's ufuncs evaluate 8- and 16-bit integers in single precision
+            # SciPy's ufuncs have no long double loop: a rejection of that kind by the SciPy-based routines is information
+            soft = kind == "longdouble" and fn in ("scipy", "deriv")
+            pre = f"t = np.array({t0!r}, dtype={dt}); p = np.array({p0!r}, dtype={dt})"
+            out.append(dict(fn=fn, cls=f"direct-dtype:{kind}", soft=soft, **flags, steps=[
+                _step(pre, f"fn({L}, t, p)", L, t0, p0),
+                _step("", f"fn({L}, t, p)", L, t0, p0, same=0, cls=f"direct-dtype:{kind}:repeat"),
+                _step("", f"fn({L + 1}, t, p)", L + 1, t0, p0),
+                _step("", f"fn({L}, t, p)", L, t0, p0, same=0, cls=f"direct-dtype:{kind}:repeat"),
+                _step("t *= 2; p += 1", f"fn({L}, t, p)", L, t1, p1, cls=f"direct-dtype:{kind}:in-place-edit"),
+                _step(f"t[:] = {t0!r}; p[:] = {p0!r}", f"fn({L}, t, p)", L, t0, p0, same=0, cls=f"direct-dtype:{kind}:in-place-edit"),
+                _step("", f"fn({L}, t, t)", L, t0, t0, cls=f"direct-dtype:{kind}:same-object")]))
     # solid harmonics: rows (r, theta, phi)
     sf = [[u(0.3, 2.0), tf[k], pf[k]] for k in range(4)] + [[0.0, tf[0], pf[1]], [1.0, tf[1], pf[0]]]
     si = [[1, 0, 1], [2, 1, 2], [3, 5, -1], [0, 2, 3]]
@@ -406,6 +445,19 @@ def _variants(ctx: Ctx):
     one("solid", "dtype:negative-stride", f"s = np.array({sf[::-1]!r})[::-1]", "fn(3, s)", 3, t, p, r)
     one("solid", "dtype:stacked-zero-stride-radius", f"s = np.stack([np.broadcast_to(np.float64(1.5), ({len(sf)},)), np.array({t!r}), np.array({p!r})], axis=1)", "fn(3, s)", 3,
         t, p, [1.5] * len(sf))
+    # round 5, class 23 (+ 25): the (r, theta, phi) array itself in extended / reduced precision and as integers, C- and Fortran-ordered
+    for kind, dt, flags in DIRECT:
+        s0 = [[1.0, 1.0, 1.0], [2.0, -2.0, 2.0], [3.0, 3.0, -1.0], [0.0, 1.0, 2.0]] if kind.startswith("int") else \
+            [[h16(rg.uniform(0.5, 1.5)), t16[k], p16[k]] for k in range(3)] + [[0.0, t16[0], p16[1]], [2.0, t16[1], p16[0]]]
+        s1 = [[2 * x[0], x[1], x[2]] for x in s0]
+        for order, build in (("", f"s = np.array({s0!r}, dtype={dt})"), (":fortran", f"s = np.asfortranarray(np.array({s0!r}, dtype={dt}))")):
+            out.append(dict(fn="solid", cls=f"direct-dtype:{kind}{order}", **flags, steps=[
+                _step(build, "fn(3, s)", 3, *cols(s0)),
+                _step("", "fn(3, s)", 3, *cols(s0), same=0, cls=f"direct-dtype:{kind}{order}:repeat"),
+                _step("", "fn(4, s)", 4, *cols(s0)),
+                _step("", "fn(3, s)", 3, *cols(s0), same=0, cls=f"direct-dtype:{kind}{order}:repeat"),
+                _step("s[:, 0] *= 2", "fn(3, s)", 3, *cols(s1), cls=f"direct-dtype:{kind}{order}:in-place-edit"),
+                _step(f"s[:] = {s0!r}", "fn(3, s)", 3, *cols(s0), same=0, cls=f"direct-dtype:{kind}{order}:in-place-edit")]))
     sa, sb = sf[:3], [[u(0.3, 2.0), u(0.2, 2.9), u(3.4, 6.0)] for _ in range(3)]
     (ta, pa, ra), (t2, p2, r2), (tc, pc, rc) = cols(sa), cols(sb), cols(sf)
     out.append(dict(fn="solid", cls="history", steps=[
@@ -573,7 +625,7 @@ def _run_variants(ctx: Ctx, ut, kind, variants, ref, refname):
             for n, a in before.items():
                 if not np.array_equal(ns[n], a, equal_nan=True):
                     ctx.fail(kind, f"{key}:input-modified" if kind == "corr" else f"utils.{_FN[fn]}:input-modified",
-                             f"{_FN[fn]}: the call `{st['call']}` modified its argument `{n}`: {a.tolist()} -> {np.asarray(ns[n]).tolist()}",
+                             f"{_FN[fn]}: the call `{st['call']}` modified its argument `{n}` ({a.dtype}): {np.asarray(a, dtype=float).tolist()} -> {np.asarray(ns[n], dtype=float).tolist()}",
                              witness={"history": src, "argument": n}, snippet=SNIP_MOD.format(fname=_FN[fn], pre=pre_src, call=st["call"]) if kind == "oracle" else None)
                     ns[n][...] = a
             shape = ((2,) if fn == "deriv" else ()) + ((L + 1) ** 2, N)
@@ -595,7 +647,7 @@ def _run_variants(ctx: Ctx, ut, kind, variants, ref, refname):
                      f"(largest difference {_maxdiff(got, np.asarray(raw[st['same']], dtype=float))[0]!r}): the answer depends on the call history",
                      snippet=SNIP_SAME.format(fname=_FN[fn], call=st["call"], first=first["call"],
                                               pre="\n".join(("first = " + x) if i == pos[st["same"]] else x for i, x in enumerate(src[:-1]))))
-            base = 64 * EPS32 if v.get("single") else 1e-12
+            base = _loose(v, 1e-12)
             for j in range(N):
                 t, p, r = st["t"][j], st["p"][j], (st["r"][j] if st["r"] is not None else None)
                 want = ref("solid" if fn == "solid" else "dY" if fn == "deriv" else "Y", L, t, p, r)
@@ -711,6 +763,30 @@ def _c2s_variants(ctx: Ctx):
             # NumPy's promotion: float32 / int8 points with a float32 centre are subtracted in single precision
             one(f"dtype:points-{pk},centre-fractional-{ck}", P(pi_, f", dtype={pdt}") + f"; c = {csrc}", "fn(P, c)", pi_, cq,
                 single=pk in ("float32", "int8") and ck == "float32-array")
+    # round 5, class 23 (+ 25): points and centre given directly as np.longdouble / float16 / float32 / int16 arrays (values representable
+    # in float16), every pairing; repeated on the same objects, after an in-place change of both, and back
+    pq = [[1.5, -2.25, 3.0], [0.25, -1.5, 2.75], [0.0, 0.0, 0.0], [-4.0, 0.5, 1.0], [2.5, 2.5, -3.5]]
+    pq2 = [[2 * x for x in row] for row in pq]
+    cq2 = [x + 1 for x in cq]
+    PREC = {"longdouble": 3, "float64": 2, "float32": 1, "float16": 0}
+    for pk in ("longdouble", "float16", "float32", "float64", "int16"):
+        for ck in ("longdouble", "float16", "float32", "float64", "none"):
+            if pk == "float64" and ck in ("float64", "none", "float32"):
+                continue
+            pts, pts2 = (pi_, [[2 * x for x in row] for row in pi_]) if pk == "int16" else (pq, pq2)
+            # NumPy's promotion decides the type the subtraction is carried out in
+            kinds = [k for k in (pk, ck) if k in PREC] if pk != "int16" else ([ck] if ck in PREC and ck != "float16" else ["float64"] if ck != "float16" else ["float32"])
+            if ck == "none":
+                kinds = ["float64"] if pk != "longdouble" else ["longdouble"]
+            work = max(kinds, key=PREC.get)
+            flags = {"half": True} if work == "float16" else {"single": True} if work == "float32" else {}
+            pre = P(pts, f", dtype=np.{pk}") + ("" if ck == "none" else f"; c = np.array({cq!r}, dtype=np.{ck})")
+            call, cc, cc2 = ("fn(P)", Z, Z) if ck == "none" else ("fn(P, c)", cq, cq2)
+            out.append(dict(cls=f"direct-dtype:points-{pk},centre-{ck}", **flags, steps=[
+                st(pre, call, pts, cc),
+                st("", call, pts, cc, same=0, cls=f"direct-dtype:points-{pk},centre-{ck}:repeat"),
+                st("P *= 2" + ("" if ck == "none" else "; c += 1"), call, pts2, cc2, cls=f"direct-dtype:points-{pk},centre-{ck}:in-place-edit"),
+                st(f"P[:] = {pts!r}" + ("" if ck == "none" else f"; c[:] = {cq!r}"), call, pts, cc, same=0, cls=f"direct-dtype:points-{pk},centre-{ck}:in-place-edit")]))
     one("dtype:points-bool,centre-fractional", "P = np.array([[True, False, True], [False, False, False], [True, True, False]]); c = " + repr(cq), "fn(P, c)",
         [[1, 0, 1], [0, 0, 0], [1, 1, 0]], cq)
     # signed zeros (r = 0 with theta = -pi is inside the documented ranges)
@@ -787,7 +863,7 @@ def _run_c2s(ctx: Ctx, ut, kind, mp=None):
         raw, src, pos = [], [], {}
         for k, s in enumerate(v["steps"]):
             cls = s["cls"] or v["cls"]
-            tag = f"variant:c2s:{cls.split(':')[0] if cls.startswith(('radius', 'float-range', 'near-centre')) else cls}"  # one tag for all scales
+            tag = f"variant:c2s:{cls.split(':')[0] if cls.startswith(('radius', 'float-range', 'near-centre')) else 'direct-dtype' if cls.startswith('direct-dtype') else cls}"  # one tag for all scales
             key = f"variant:c2s:{cls}" if kind == "corr" else f"utils.convert_cart_to_sph:{cls}"
             ctx.count([kind, "c2s", cls, k, s["pre"], s["call"]], nontrivial=not v.get("soft"), tag=tag)
             if s["pre"]:
@@ -815,7 +891,7 @@ def _run_c2s(ctx: Ctx, ut, kind, mp=None):
             src.append(s["call"])
             for n, a in before.items():
                 if not np.array_equal(ns[n], a, equal_nan=True):
-                    fail(f"modified its argument `{n}`: {a.tolist()} -> {np.asarray(ns[n]).tolist()}", witness={"argument": n},
+                    fail(f"modified its argument `{n}` ({a.dtype}): {np.asarray(a, dtype=float).tolist()} -> {np.asarray(ns[n], dtype=float).tolist()}", witness={"argument": n},
                          snippet=SNIP_MOD.format(fname=_FN["c2s"], pre=pre_src, call=s["call"]),
                          key=f"{key}:input-modified" if kind == "corr" else "utils.convert_cart_to_sph:input-modified")
                     ns[n][...] = a
@@ -831,7 +907,7 @@ def _run_c2s(ctx: Ctx, ut, kind, mp=None):
                 c = s["c"]
                 g = [float(x) for x in got[j]]
                 if kind == "corr":
-                    rt = 64 * EPS32 if v.get("single") else 1e-13
+                    rt = _loose(v, 1e-13)
                     bad = False
                     for mname, store in (("model", model), ("generated model", gen)):
                         if store is None:
@@ -848,7 +924,7 @@ def _run_c2s(ctx: Ctx, ut, kind, mp=None):
                 with mp.workdps(60):
                     d = [mp.mpf(a) - mp.mpf(b) for a, b in zip(q, c)]
                     r0 = mp.sqrt(d[0] ** 2 + d[1] ** 2 + d[2] ** 2)
-                    slack = 4 * EPS32 if v.get("single") else 0.0  # float32(pi) > pi
+                    slack = _loose(v, 0.0) / 16  # float32(pi) > pi
                     ok_range = g[0] >= 0 and -PI - slack <= g[1] <= PI + slack and 0 <= g[2] <= PI + slack
                     if all(x == x and abs(x) != float("inf") for x in g):
                         r, t, p = (mp.mpf(x) for x in g)
@@ -857,8 +933,8 @@ def _run_c2s(ctx: Ctx, ut, kind, mp=None):
                         rerr = abs(r - r0)
                     else:
                         err = rerr = mp.inf
-                    tol = v.get("tol", 64 * EPS32 if v.get("single") else 1e-13)
-                    good = ok_range and rerr <= (64 * EPS32 if v.get("single") else 1e-14) * r0 + v.get("atol", 0.0) and err <= tol * r0 + v.get("atol", 0.0)
+                    tol = v.get("tol", _loose(v, 1e-13))
+                    good = ok_range and rerr <= (_loose(v, 1e-14)) * r0 + v.get("atol", 0.0) and err <= tol * r0 + v.get("atol", 0.0)
                     if v["cls"] == "near-polar-axis" and r0 > 0:
                         worst_axis = max(worst_axis, float(err / r0))
                 if good:
@@ -872,7 +948,7 @@ def _run_c2s(ctx: Ctx, ut, kind, mp=None):
                       f"radius off by {float(rerr)!r}, maps back to a point at distance {float(err)!r} (true radius {float(r0)!r})"),
                      witness={"point": q, "center": c, "sph": g, "true_radius": float(r0)},
                      snippet=SNIP_C2S.format(pre=pre_src, call=s["call"], j=j, q=q, c=c, tol=tol, atol=v.get("atol", 0.0), slack=slack,
-                                             rtol=64 * EPS32 if v.get("single") else 1e-14),
+                                             rtol=_loose(v, 1e-14)),
                      key="utils.convert_cart_to_sph:float-range" if v.get("range_edge") else key)
                 break
     if kind == "oracle":
@@ -1851,6 +1927,184 @@ def _extreme_pipeline(ctx: Ctx, ut, kind, mp=None):
                         break
 
 
+
+# --------------------------------------------------------------------------------------
+# round 5: sizes past block boundaries and orders the code might assume (classes 21, 22); the scalar arguments of the derivative
+# conversion in extended / reduced precision and as 0-d arrays changed in place (classes 23, 25)
+# --------------------------------------------------------------------------------------
+SNIP_BLOCK = """import warnings; warnings.filterwarnings('ignore')
+import numpy as np
+import grid.utils as u
+N, L, off = {N}, {L}, {off!r}
+k = np.arange(N)
+t = ((k * 0.6180339887498949 + off) % 1.0) * 14.0 - 7.0      # azimuth in [-7, 7), every point different
+p = ((k * 0.7548776662466927 + off) % 1.0) * 12.0 - 4.0      # polar angle in [-4, 8)
+r = ((k * 0.5698402909980532 + off) % 1.0) * 2.0 + 0.25
+X = np.stack([t, p, r * 3 - 3], axis=1); c = np.array([0.5, -1.25, 2.0])
+f = {{'recursion': lambda i: u.generate_real_spherical_harmonics(L, t[i], p[i]), 'scipy': lambda i: u.generate_real_spherical_harmonics_scipy(L, t[i], p[i]),
+     'deriv': lambda i: u.generate_derivative_real_spherical_harmonics(L, t[i], p[i]), 'solid': lambda i: u.solid_harmonics(L, np.stack([r[i], t[i], p[i]], axis=1)),
+     'c2s': lambda i: u.convert_cart_to_sph(X[i], c).T}}[{fn!r}]
+full = np.asarray(f(k), dtype=float)
+idx = {idx}          # {what}
+other = np.concatenate([np.asarray(f(i), dtype=float) for i in idx], axis=-1) if isinstance(idx, list) else np.asarray(f(idx), dtype=float)
+want = full[..., np.concatenate(idx) if isinstance(idx, list) else idx]
+assert other.shape == want.shape and np.allclose(other, want, rtol=0, atol={tol!r}, equal_nan=True), f'{what}: largest difference {{float(np.nanmax(np.abs(other - want)))!r}} at {{np.unravel_index(int(np.nanargmax(np.abs(other - want))), want.shape)}}'
+"""
+
+
+def _block_sizes_and_order(ctx: Ctx, ut, kind, mp=None):
+    """Classes 21 / 22: numbers of points just above powers of two / round decimal numbers (1025, 4097; thorough: 65537, 2^19 + 1), every
+    point different.  The routines act point by point, so the answer on the whole array must be the concatenation of the answers
+    on a split of it, its permutation under a shuffle / a descending sort / a reversal of the points, and - at the first, last and
+    block-boundary points - the per-point model (corr) / the definition (oracle)."""
+    rg = ctx.rng
+    sizes = [(1025, 3), (4097, 2)] + ([(65537, 2), (2 ** 19 + 1, 1)] if ctx.thorough else [])
+    for N, L in sizes:
+        off = round(rg.random(), 6)
+        k = np.arange(N)
+        t = ((k * 0.6180339887498949 + off) % 1.0) * 14.0 - 7.0
+        p = ((k * 0.7548776662466927 + off) % 1.0) * 12.0 - 4.0
+        r = ((k * 0.5698402909980532 + off) % 1.0) * 2.0 + 0.25
+        X = np.stack([t, p, r * 3 - 3], axis=1)
+        c = np.array([0.5, -1.25, 2.0])
+        fs = {"recursion": lambda i: ut.generate_real_spherical_harmonics(L, t[i], p[i]), "scipy": lambda i: ut.generate_real_spherical_harmonics_scipy(L, t[i], p[i]),
+              "deriv": lambda i: ut.generate_derivative_real_spherical_harmonics(L, t[i], p[i]), "solid": lambda i: ut.solid_harmonics(L, np.stack([r[i], t[i], p[i]], axis=1)),
+              "c2s": lambda i: ut.convert_cart_to_sph(X[i], c).T}
+        cut = rg.randrange(N // 3, 2 * N // 3)
+        perm = np.random.default_rng(rg.randrange(2 ** 32)).permutation(N)
+        special = sorted({0, 1, 2, 255, 256, 511, 512, 1023, 1024, cut - 1, cut, N - 2, N - 1} | ({4095, 4096} if N > 4096 else set()) | ({65535, 65536} if N > 65536 else set())
+                         | {rg.randrange(N) for _ in range(3)})
+        special = [i for i in special if i < N]
+        if kind == "corr":
+            lines = [f"C08.ylmCode {L} {f2b(t[i])} {f2b(p[i])}" for i in special] + [f"C08.dYlm {L} {f2b(t[i])} {f2b(p[i])}" for i in special] \
+                + [f"C08.solid {L} {f2b(r[i])} {f2b(t[i])} {f2b(p[i])}" for i in special] + ["C08.cartToSph " + " ".join(f2b(x) for x in list(X[i]) + list(c)) for i in special]
+            ans = driver_batch(lines)
+            n = len(special)
+        else:
+            ref = _mp_refs(mp)
+        for fn, f in fs.items():
+            full = np.asarray(f(k), dtype=float)
+            scale = max(1.0, float(np.nanmax(np.abs(full))))
+            tol = 1e-12 * (L + 1) * 8 * scale
+            ctx.count([kind, "blocks", fn, N], nontrivial=True, tag=f"blocks:{fn}:N={N}")
+            key = f"blocks:{fn}" if kind == "corr" else f"utils.{_FN[fn]}:large-N"
+            tests = [("split", [k[:cut], k[cut:]], f"[k[:{cut}], k[{cut}:]]", f"the answer on {N} points against the concatenation of the answers on the first {cut} and the remaining {N - cut}"),
+                     ("three-way split", [k[:1024], k[1024:N - 1], k[N - 1:]], f"[k[:1024], k[1024:{N - 1}], k[{N - 1}:]]", f"{N} points against 1024 + {N - 1025} + 1 points"),
+                     ("reversed", k[::-1], "k[::-1]", f"the answer on the {N} points in reversed order against the reversed answer"),
+                     ("descending polar angle", np.argsort(-p, kind="stable"), "np.argsort(-p, kind='stable')", f"the {N} points sorted by descending polar angle"),
+                     ("shuffled", perm, f"np.random.default_rng({0}).permutation(N)", f"the {N} points shuffled")]
+            for name, idx, src, what in tests:
+                if name == "shuffled":   # the snippet must rebuild the same permutation
+                    seed = rg.randrange(2 ** 32)
+                    idx = np.random.default_rng(seed).permutation(N)
+                    src = f"np.random.default_rng({seed}).permutation(N)"
+                other = np.concatenate([np.asarray(f(i), dtype=float) for i in idx], axis=-1) if isinstance(idx, list) else np.asarray(f(idx), dtype=float)
+                want = full[..., np.concatenate(idx) if isinstance(idx, list) else idx]
+                if other.shape != want.shape or not np.allclose(other, want, rtol=0, atol=tol, equal_nan=True):
+                    dd = float(np.nanmax(np.abs(other - want))) if other.shape == want.shape else float("inf")
+                    where = np.unravel_index(int(np.nanargmax(np.abs(other - want))), want.shape) if other.shape == want.shape else None
+                    ctx.fail(kind, key, f"{_FN[fn]}, l_max = {L}, {N} different points ({name}): {what} differs by {dd!r} at {where} (shapes {other.shape} / {want.shape})",
+                             witness={"routine": fn, "N": N, "l_max": L, "offset": off, "test": name},
+                             snippet=SNIP_BLOCK.format(N=N, L=L, off=off, fn=fn, idx=src, what=what, tol=tol) if kind == "oracle" else None)
+            # per-point reference at the first / last / boundary points
+            for q, i in enumerate(special):
+                if fn == "c2s":
+                    got = full[:, i]
+                    if kind == "corr":
+                        T = Tokens(ans[3 * n + q][3:]) if ans[3 * n + q].startswith("ok ") else None
+                        want = np.array([T.flt(), T.flt(), T.flt()]) if T else None
+                    else:
+                        with mp.workdps(40):
+                            d3 = [mp.mpf(float(a)) - mp.mpf(float(b)) for a, b in zip(X[i], c)]
+                            r0 = mp.sqrt(sum(x * x for x in d3))
+                            want = np.array([float(r0), float(mp.atan2(d3[1], d3[0])), float(mp.acos(d3[2] / r0))])
+                    ok = want is not None and np.allclose(got, want, rtol=0, atol=1e-12 * max(1.0, float(got[0])))
+                elif fn == "deriv":
+                    got = full[:, :, i]
+                    if kind == "corr":
+                        a = ans[n + q]
+                        T = Tokens(a[3:]) if a.startswith("ok ") else None
+                        want = np.array([T.fvec(), T.fvec()]) if T else None
+                    else:
+                        want = ref("dY", L, float(t[i]), float(p[i]), None) if abs(math.sin(p[i])) > 1e-3 else None
+                        if want is None:
+                            continue
+                    ok = want is not None and np.allclose(got, want, rtol=0, atol=(1e-10 if kind == "oracle" else 1e-12) * (L + 1) ** 2 * 8 * max(1.0, float(np.max(np.abs(want)))))
+                else:
+                    got = full[:, i]
+                    if kind == "corr":
+                        want = _rows(ans[(2 * n if fn == "solid" else 0) + q])
+                    else:
+                        want = ref("solid" if fn == "solid" else "Y", L, float(t[i]), float(p[i]), float(r[i]) if fn == "solid" else None)
+                    ok = want is not None and len(want) == len(got) and np.allclose(got, want, rtol=0, atol=1e-12 * (L + 1) * 8 * max(1.0, float(r[i]) ** L if fn == "solid" else 1.0))
+                if not ok:
+                    ctx.fail(kind, key, f"{_FN[fn]}, l_max = {L}, {N} different points: the answer at point {i} (theta={float(t[i])!r}, phi={float(p[i])!r}, r={float(r[i])!r}) is "
+                             f"{np.asarray(got).ravel()[:6].tolist()} ..., {'model' if kind == 'corr' else 'definition'} {None if want is None else np.asarray(want).ravel()[:6].tolist()} ...",
+                             witness={"routine": fn if fn != "c2s" else "c2s", "N": N, "l_max": L, "theta": float(t[i]), "phi": float(p[i]), "r": float(r[i]), "point": [float(x) for x in X[i]],
+                                      "center": c.tolist(), "index": i},
+                             snippet=SNIP_BLOCK.format(N=N, L=L, off=off, fn=fn, idx=f"np.array([{i}])", what=f"the answer for point {i} alone against column {i} of the answer on all {N} points", tol=tol)
+                             if kind == "oracle" else None)
+                    break
+
+
+SNIP_CONV_DT = """import numpy as np
+from grid.utils import convert_derivative_from_spherical_to_cartesian as f
+vals = {vals!r}      # deriv_r, deriv_theta, deriv_phi, r, theta, phi: all exact in float16
+args = [{mk} for x in vals]
+keep = [np.array(a, copy=True) for a in args]
+first = np.asarray(f(*args), dtype=float)
+again = np.asarray(f(*args), dtype=float)
+assert all(np.array_equal(np.asarray(a), k) for a, k in zip(args, keep)), 'the call modified a 0-d argument'
+assert np.array_equal(first, again), 'the second call on the same argument objects differs from the first'
+want = np.asarray(f(*[float(x) for x in vals]), dtype=float)
+assert np.allclose(first, want, rtol=0, atol={tol!r}), f'{{first.tolist()}} with {dt} arguments, {{want.tolist()}} with Python floats'
+"""
+
+
+def _direct_precision_conv_deriv(ctx: Ctx, ut):
+    """Classes 23 / 25 for convert_derivative_from_spherical_to_cartesian: all six arguments as np.longdouble / float32 / float16 /
+    integer scalars and 0-d arrays (values exact in float16) against the call with Python floats; the 0-d arrays unchanged, a second
+    call on the same objects identical, and after `r0[...] = new` the answer for the new contents."""
+    rg = ctx.rng
+    f = ut.convert_derivative_from_spherical_to_cartesian
+    q = lambda lo, hi: round(rg.uniform(lo, hi) * 64) / 64.0
+    for dt, tol in (("np.longdouble", 1e-12), ("np.float32", 64 * EPS32), ("np.float16", 64 * EPS16), ("np.int64", 1e-12)):
+        for form, mk in (("scalar", f"{dt}(x)"), ("0-d", f"np.array(x, dtype={dt})")):
+            for _ in range(3):
+                vals = [q(-2, 2), q(-2, 2), q(-2, 2), q(0.5, 3), q(-3, 3), rg.choice([1, -1]) * q(0.5, 2.5)]
+                if dt == "np.int64":
+                    vals = [float(round(x)) or 1.0 for x in vals]
+                args = [eval(mk, {"np": np, "x": x}) for x in vals]
+                ctx.count(["conv-direct", dt, form, vals], nontrivial=True, tag=f"convDeriv:direct-dtype:{dt[3:]}:{form}")
+                key = f"utils.convert_derivative_from_spherical_to_cartesian:direct-dtype:{dt[3:]}"
+                snip = SNIP_CONV_DT.format(vals=vals, mk=mk, tol=tol * 8, dt=dt)
+                try:
+                    keep = [np.array(a, copy=True) for a in args]
+                    first = np.asarray(f(*args), dtype=float)
+                    again = np.asarray(f(*args), dtype=float)
+                    want = np.asarray(f(*vals), dtype=float)
+                except Exception as e:
+                    ctx.fail("oracle", key, f"convert_derivative_from_spherical_to_cartesian with six {dt} {form} arguments {vals} raised {type(e).__name__}: {str(e)[:150]}",
+                             witness={"vals": vals, "dtype": dt, "form": form}, snippet=snip)
+                    continue
+                if not all(np.array_equal(np.asarray(a), kk) for a, kk in zip(args, keep)):
+                    ctx.fail("oracle", "utils.convert_derivative_from_spherical_to_cartesian:input-modified", f"the call with {dt} {form} arguments {vals} modified an argument",
+                             witness={"vals": vals, "dtype": dt, "form": form}, snippet=snip)
+                if not np.array_equal(first, again) or not np.allclose(first, want, rtol=0, atol=tol * 8 * max(1.0, float(np.max(np.abs(want))))):
+                    ctx.fail("oracle", key, f"convert_derivative_from_spherical_to_cartesian with six {dt} {form} arguments {vals} = {first.tolist()} (second call {again.tolist()}), "
+                             f"with Python floats {want.tolist()}", witness={"vals": vals, "dtype": dt, "form": form}, snippet=snip)
+                if form == "0-d":   # the same objects with new contents
+                    new = [vals[0], vals[1], vals[2], vals[3] * 2, -vals[4], vals[5]]
+                    args[3][...] = new[3]
+                    args[4][...] = new[4]
+                    got = np.asarray(f(*args), dtype=float)
+                    want2 = np.asarray(f(*new), dtype=float)
+                    if not np.allclose(got, want2, rtol=0, atol=tol * 8 * max(1.0, float(np.max(np.abs(want2))))):
+                        ctx.fail("oracle", key + ":in-place-edit", f"after r[...] = {new[3]}, theta[...] = {new[4]} on the 0-d {dt} arguments of the previous call "
+                                 f"convert_derivative_from_spherical_to_cartesian returns {got.tolist()}, the answer for the new contents is {want2.tolist()}",
+                                 witness={"vals": vals, "new": new, "dtype": dt})
+
+
 # --------------------------------------------------------------------------------------
 # correspondence
 # --------------------------------------------------------------------------------------
@@ -2150,6 +2404,8 @@ def corr(ctx: Ctx):
         ("cross-routine", lambda: _cross_routine_history(ctx, ut, "corr")),
         # round 4: extreme radii through the pipeline
         ("extreme-pipeline", lambda: _extreme_pipeline(ctx, ut, "corr")),
+        # round 5: numbers of points past block boundaries, orders the code might assume
+        ("block-sizes", lambda: _block_sizes_and_order(ctx, ut, "corr")),
     ])
 
 
@@ -2466,6 +2722,10 @@ def oracle(ctx: Ctx, budget: str):
         ("value-kinds", lambda: _value_kinds_conv_deriv(ctx, ut)),
         ("after-rejected-calls", lambda: _rejected_calls_leave_no_trace(ctx, ut)),
         ("extreme-pipeline", lambda: _extreme_pipeline(ctx, ut, "oracle", mp)),
+        # (m) round 5: numbers of points past block boundaries and orders the code might assume; the scalar arguments of the derivative
+        #     conversion in extended / reduced precision and as 0-d arrays changed in place
+        ("block-sizes", lambda: _block_sizes_and_order(ctx, ut, "oracle", mp)),
+        ("conv-deriv-direct-dtype", lambda: _direct_precision_conv_deriv(ctx, ut)),
     ])
 
 
